@@ -163,6 +163,13 @@ def generate(tier, rng):
             if mode in ("above", "below") and base["dominant"] and (k + vi) % 2 == 0:
                 # the DEFAULT tolerance is far above the resolution of the sums when a process-less stock dominates
                 tol, tol_eff = None, default_tol(sysd)
+                if (k + vi) % 4 == 0:
+                    # a gap (NaN) in the level series of the reserve, away from its largest entry: the levels take no part in any
+                    # balance, and the default tolerance is still scaled to the largest magnitude present
+                    res = [s_ for s_ in sysd["stocks"] if s_["proc"] is None and s_["name"].endswith("reserve")][-1]
+                    jmax = max(range(len(res["stock"])), key=lambda q: abs(Fraction(res["stock"][q])))
+                    if len(res["stock"]) > 1:
+                        res["stock"][(jmax + 1) % len(res["stock"])] = "nan"
             if mode in ("above", "below") and sysd["flows"]:
                 f = sysd["flows"][int(r * len(sysd["flows"]))]
                 j = int(r * 997) % len(f["arr"]["values"])
@@ -213,6 +220,10 @@ def generate(tier, rng):
                             stocks=[dict(s_, inflow=[sc(v) for v in s_["inflow"]], outflow=[sc(v) for v in s_["outflow"]],
                                          stock=[sc(v) for v in s_["stock"]]) for s_ in sysd["stocks"]])
                 tol = None if tol is None else tol * scale
+            allv = [v for f in sysd["flows"] for v in f["arr"]["values"]] + [v for s_ in sysd["stocks"] for q in ("inflow", "outflow", "stock") for v in s_[q]]
+            if (k + vi) % 2 == 0 and all(v != "nan" and Fraction(v).denominator == 1 for v in allv):
+                # whole numbers held in integer arrays (counts of items): the same verdicts as for the same numbers in float arrays
+                sysd = dict(sysd, int_dtype=True)
             cases.append(dict(stream="exact", mode=mode, sys=sysd, tol=None if tol is None else str(tol), exceptions=exc,
                               compare_balances=compare_balances))
     return cases
@@ -233,12 +244,14 @@ def build_system(sysd):
         v = _vals(f["arr"]["values"]).reshape(ds.shape)
         if fi % 2 and v.ndim >= 2:
             v = np.asfortranarray(v)          # same values, column-major memory layout
+        if sysd.get("int_dtype"):
+            v = v.astype(np.int64)
         flows[f["name"]] = fd.Flow(dims=ds, values=v, name=f["name"],
                                    from_process=procs[f["frm"]], to_process=procs[f["to"]])
     stocks = {}
     for s in sysd["stocks"]:
         ds = fl_dimset(uni, s["dims"])
-        mk = lambda v: fd.StockArray(dims=ds, values=np.asfortranarray(_vals(v).reshape(ds.shape)))
+        mk = lambda v: fd.StockArray(dims=ds, values=np.asfortranarray(_vals(v).reshape(ds.shape)).astype(np.int64 if sysd.get("int_dtype") else float))
         stocks[s["name"]] = fd.SimpleFlowDrivenStock(dims=ds, inflow=mk(s["inflow"]), outflow=mk(s["outflow"]), stock=mk(s["stock"]),
                                                     name=s["name"], process=procs[s["proc"]] if s["proc"] else None)
     return fd.MFASystem(dims=dims, parameters={}, processes=procs, flows=flows, stocks=stocks)
